@@ -114,7 +114,8 @@ let summary (c : case) (s : state) : string =
        let h = s.hs (nat_of_int i) in
        Printf.sprintf "h%d=%s/%s/%s/%s/%s" i (string_of_z h.published) (string_of_z h.seen)
          (string_of_z h.cb_count) (string_of_z h.sends_begun)
-         (match h.hst with Open -> "o" | Closing -> "g" | Closed -> "x")))
+         (if List.mem (nat_of_int i) s.lp.l_closed then "x"
+          else match h.hst with Open -> "o" | Closing -> "g")))
 
 let record (c : case) (before : state) (after : state) (tid : int) : string =
   Printf.sprintf "%d.%s.%x.%s.%s.%s" tid (label c after tid) (mask c after) (obs c after)
@@ -191,7 +192,7 @@ type key = { kh : (bool * string * int * bool * string * string * string * strin
 
 let key_of (c : case) (s : state) : key =
   { kh = List.init c.n (fun i -> let h = s.hs (nat_of_int i) in
-        (h.pending, string_of_z h.busy, (match h.hst with Open -> 0 | Closing -> 1 | Closed -> 2), h.unl,
+        (h.pending, string_of_z h.busy, (match h.hst with Open -> 0 | Closing -> 1), h.unl,
          string_of_z h.published, string_of_z h.seen, string_of_z h.sends_begun, string_of_z h.cb_count));
     ks = List.map (fun x -> (x.s_pc, x.s_script)) s.snd;
     kl = (s.lp.l_pc, s.lp.l_script, s.lp.l_queue, s.lp.l_cbops, s.lp.l_incb, s.lp.l_mode, s.lp.l_cbk, s.lp.l_closing);
